@@ -502,12 +502,15 @@ class ExprMixin:
         if imp is not None:
             return self.imported(imp)
         g = self.repo.globals_src.get(m, {})
-        if n in g:
-            return self.module_global(m, n, g[n], st)
+        if n in g or n in self.fields.get("module:" + m, {}):
+            return self.module_global(m, n, g.get(n), st)
         if hasattr(_bi, n):
             if n in PY_EXC:
                 return V("cls", z3.IntVal(static_ref("class:" + n)), cls=n)
             return V("builtin", cls=n)
+        if self.spec_mode and (("module:" + n) in self.fields or n in self.repo.trees):
+            # specifications name modules (pickle.load, hook._original_pickle_load) whether or not the module under verification imports them
+            return self.imported(n if ("module:" + n) in self.fields and n not in self.repo.trees else "fickling." + n)
         raise Unsupported(f"{self.where(node)}: unbound name {n}")
 
     def imported(self, dotted):
@@ -534,6 +537,27 @@ class ExprMixin:
             return V("module", z3.IntVal(static_ref("module:" + dotted)), cls=dotted)
         return V("builtin", cls=dotted)      # e.g. ast.unparse, io.BytesIO, pickletools.genops: external model by dotted name
 
+    @staticmethod
+    def fold_const(node):
+        """value of a module-level arithmetic constant such as 1 << 20 or 4 * 1024 (integers and the operators + - * // << >> | & ** only)"""
+        import operator
+        ops = {ast.Add: operator.add, ast.Sub: operator.sub, ast.Mult: operator.mul, ast.FloorDiv: operator.floordiv, ast.LShift: operator.lshift,
+               ast.RShift: operator.rshift, ast.BitOr: operator.or_, ast.BitAnd: operator.and_, ast.Pow: operator.pow}
+
+        def go(e):
+            if isinstance(e, ast.Constant) and type(e.value) is int:
+                return e.value
+            if isinstance(e, ast.UnaryOp) and isinstance(e.op, ast.USub):
+                v = go(e.operand)
+                return None if v is None else -v
+            if isinstance(e, ast.BinOp) and type(e.op) in ops:
+                a, b = go(e.left), go(e.right)
+                if a is None or b is None or (isinstance(e.op, (ast.LShift, ast.Pow)) and not 0 <= b <= 4096) or (isinstance(e.op, ast.FloorDiv) and b == 0):
+                    return None
+                return ops[type(e.op)](a, b)
+            return None
+        return go(node)
+
     def module_global(self, m, n, valnode, st):
         """module-level assignment: literals are constants; everything else is a field of the module object"""
         ft = self.fields.get("module:" + m, {}).get(n)
@@ -542,6 +566,14 @@ class ExprMixin:
                 return self.lit(ast.literal_eval(valnode))
             except Exception:  # noqa
                 pass
+            live = self.repo.live.get("module_str_sets", {}).get(m, {}).get(n)
+            if live is not None and live["type"] in ("frozenset", "tuple") and isinstance(valnode, ast.Call):
+                # an immutable collection of strings computed at import time (frozenset(sys.builtin_module_names)): its imported value
+                return V("const", xs=tuple(live["items"]))
+            if isinstance(valnode, ast.BinOp):
+                folded = self.fold_const(valnode)
+                if folded is not None:
+                    return self.lit(folded)
             if isinstance(valnode, ast.JoinedStr) or isinstance(valnode, ast.BinOp):
                 return V("str", fresh("modconst." + n, Str))
             if isinstance(valnode, (ast.Attribute, ast.Name)):      # alias of another global (make_constant = ast.Constant)
